@@ -17,7 +17,7 @@ META = {
     "outside": "streams outside the templates",
     "assumptions": ["reference run: the code's own CRC result over each generated frame assumed zero"],
 }
-WALL_BUDGET = {"quick": 480, "thorough": 3000}
+WALL_BUDGET = {"quick": 900, "thorough": 3000}
 TEMPLATES = [('R2',), ('R2', 'R3'), ('R19', 'N', 'R2'), ('N', 'R3', 'U2'), ('X2', 'R2'), ('R2', 'X1', 'R19'), ('U0', 'R2', 'R3'), ('R600',), ('Rmax', 'R2'),
              ('F2', 'R2'), ('R2', 'F2', 'R3'), ('F1', 'R3', 'F1'), ('R3', 'F2'), ('R0', 'R2'), ('M11', 'R2'), ('R3', 'M11')]
 
